@@ -116,4 +116,18 @@ CHECKS.update({
                 text='3 base tables x 8 worker copies (2 that must be split-identical, 6 differing in one split-relevant attribute) x shard counts x every shard index incl. out of range x {initiator, worker, zero} digests: a fragment runs iff the index is in range and the digest is the worker\'s own.',
                 note='Byte-size-only differences are produced with wider strings in real files rather than forged footers.'),
 })
+CHECKS.update({
+    'C05': dict(category='exploration', engine=E2, design='3/C05',
+                technique='exhaustive enumeration of row-group contents x predicates on real one-row-group Parquet files, decode-and-evaluate oracle',
+                text='Every multiset of 1..2 (quick) / 3 (thorough) boundary values for int32/int64/double/utf8/date32 columns against ~900 (quick) / several thousand (thorough) predicates built from 45 literals of every kind the pruner matches on; a skipped group must contain no TRUE row, a dropped filter must have every row TRUE.',
+                note='Row-level truth is the interpreter (evaluate_expr); NaN-in-data cases are a listed known finding (Parquet statistics do not cover NaN).'),
+    'C37': dict(category='exploration', engine=E2, design='3/C37',
+                technique='exhaustive enumeration of short arrays with NULLs plus structured families for every length up to 130, round-trip and Arrow-kernel oracles',
+                text='All arrays of length <= 5/6 over {NULL,v1,v2} for five types (also sliced), nine run/constant/NULL-position families for lengths 1..130; encode_optimal(..).decode() must equal the input and the six SIMD helpers must equal the Arrow kernels on all equal-length pairs.',
+                note='Dictionary-typed results are compared after casting to the value type.'),
+    'C39': dict(category='exploration', engine=E2, design='3/C39',
+                technique='enumeration of scale factors x seeds with regeneration, Parquet round trip, foreign-key resolution and threaded regeneration',
+                text='Scale factors 0.001-0.005 (quick) / -0.05 (thorough) x 3 seeds: two runs equal, row counts equal TpchRowCounts, ten foreign keys resolve, Parquet write/read equals memory, threads equal the reference; source scanned for global state.',
+                note='The schedule quantifier is vacuous by construction (no shared state); one deliberate dangling key range is a listed known finding.'),
+})
 PENDING_REASON = 'check not built yet in this round (planned in DESIGN.md section 3); not claimed until it exists'
